@@ -404,6 +404,8 @@ func runC17(c *Ctx) {
 	}
 	checkDeriveKeyUse(c, "C17-R5")
 	checkSaltedHash(c, "C17-R5")
+	checkSnaclErrors(c, "C17-R3")
+	checkSelectedKeyUsedUnderLock(c, "C17-R5")
 }
 
 // layoutSeq renders the ordered (op, field, width) sequence of a marshal/unmarshal function and the total size constant.
